@@ -2070,6 +2070,15 @@ impl<'a, C: Crypto> TransportRunner<'a, C> {
 
                 warn!("Dropped exchange {}: Closed", exchange_id.display(session));
                 session.exchanges[exch_index] = None;
+
+                // As in `Exchange::drop`: an ephemeral RX group session goes with its last exchange
+                if matches!(session.get_session_mode(), session::SessionMode::Group { .. })
+                    && session.exchanges.iter().all(Option::is_none)
+                    && !session.is_peer_multicast()
+                {
+                    state.sessions.remove(session_id);
+                    self.transport().notify_session_removed();
+                }
             }
 
             Ok(exch.is_none())
